@@ -79,7 +79,7 @@ Print Assumptions C11_committed_index_iff.
 
 Theorem C11_committed_index_flag : forall V a, V <> [] ->
   snd (committed_index false V a) = false.
-Proof. intros V a HV. rewrite (committed_index_plain V a HV). reflexivity. Qed.
+Proof. exact committed_index_flag_plain. Qed.
 Print Assumptions C11_committed_index_flag.
 
 Theorem C11_committed_index_empty : forall gc a, committed_index gc [] a = (u64_max, true).
